@@ -72,14 +72,15 @@ PROPS = ["C%02d" % i for i in range(1, 21)]
 def run_property(prop, tier, seed, out=sys.stdout):
     t0 = time.time()
     mod = importlib.import_module("analysis.rules." + prop)
+    meta = getattr(mod, "META", {})
     configs = ["default"]
-    if tier == "thorough":
+    if tier == "thorough" and meta.get("all_features"):
+        # only rules that do not depend on function shape are evaluated on the instrumented build
         configs.append("all-features")
     all_obs = []
     rules = {}
     analysed_fns = set()
     notes = []
-    meta = getattr(mod, "META", {})
     for cfg in configs:
         try:
             d = F.ensure_facts(cfg)
